@@ -138,6 +138,17 @@ Theorem C19_from_dict_only_fields : forall fs k f, field_for_key fs k = Some f -
 Proof. exact field_for_key_in. Qed.
 Print Assumptions C19_from_dict_only_fields.
 
+(* the .rstrip("_") in to_dict / to_pydict never removes anything: for every field name whatsoever *)
+Theorem C19_rstrip_is_noop : forall f, camel_key f = camel_case f /\ snake_key f = snake_case f.
+Proof. intros f. split; [exact (camel_key_is_camel_case f)|exact (snake_key_is_snake_case f)]. Qed.
+Print Assumptions C19_rstrip_is_noop.
+
+(* key_safe names never collide: their camelCase keys are pairwise distinct *)
+Theorem C19_camel_keys_distinct : forall s1 s2, key_safe s1 = true -> key_safe s2 = true ->
+  camel_key (safe_snake_case s1) = camel_key (safe_snake_case s2) -> safe_snake_case s1 = safe_snake_case s2.
+Proof. exact camel_keys_distinct. Qed.
+Print Assumptions C19_camel_keys_distinct.
+
 (* ---- the side conditions are exact: checked for every string of length <= 5 over {a,b,A,B,0,1,_,.}
    (partial: sufficiency is proved above for all strings; necessity only on this finite set, and by the
    harness sweep against the real functions) ---- *)
